@@ -216,6 +216,10 @@ def run(ctx):
         ('C04-icase-lower-vs-regex', "under IGNORECASE glob('i\\u0307x') returns the entry '\\u0130x' that globmatch rejects, and glob('s') misses the entry '\\u017f' that globmatch accepts (str.lower() in the walker, re.IGNORECASE in the matcher)",
          _gcm.icase_lower_vs_regex_witness),
     ])
+    from props import glue
+    glue.copied_matchers(ctx)
+    glue.deep_tree_state(ctx)
+    glue.dirfd_dangling(ctx)
     return ctx.finish(RULE)
 
 
